@@ -16,7 +16,8 @@
    2f-1 (to the server) and response 2f (to the client, can arrive once the request has been forwarded).
    User actions (resume, kill, edit) do not run the event loop; Run does (waiters wake up in the order of resume()). *)
 EXTENDS Mon_Intercept, TLC
-CONSTANTS Protos, MaxN, NFlows, Decisions, MaxUser
+CONSTANTS Cfg,        \* per protocol to explore: [n |-> messages, flows |-> flows, user |-> user actions per behaviour]
+          Decisions
 VARIABLES proto,
           ms,        \* per message: [st: "none", "queued", "waiting", "rel", "done", to, dec, cur]
           fl,        \* per flow: [ic, kd, live, known]  (known: the harness has seen the flow object in a hook)
@@ -28,6 +29,10 @@ VARIABLES proto,
           nuser, mon, obs
 vars == <<proto, ms, fl, busy, q, relq, fwd, closed, sconn, nuser, mon, obs>>
 
+Protos == DOMAIN Cfg
+MaxN == Cfg[proto].n
+NFlows == Cfg[proto].flows
+MaxUser == Cfg[proto].user
 Msgs == 1..MaxN
 Flows == 1..NFlows
 Serial == proto \in {"tcp", "udp", "ws", "dns"}
